@@ -284,6 +284,195 @@ def _is_inline_dist(a, LA, LB, LC, PX, PY, CC):
     return got == want
 
 
+class _Geo(_Rat):
+    """_Rat plus what circle-line needs: f64 operator calls, Point loads split into coordinates, |x| and sqrt as
+    atoms with their defining relations, max(x, 0) = x (the radicand is positive on the secant path)"""
+
+    def __init__(self):
+        _Rat.__init__(self)
+        self.abs_atoms = {}    # var -> polynomial of the argument
+        self.sqrt_atoms = {}   # var -> (num, den) of the radicand
+        self.unit = None       # predicate(num, den): the radicand is 1 under the line's normalisation
+
+    def ev(self, t):
+        from ..absint import strip_mem
+
+        P = self.Poly
+        one = P.const(1)
+        if isinstance(t, tuple) and t and t[0] == "proj" and isinstance(t[2], tuple) and t[2] and t[2][0] == "load":
+            return self.var(("load", ("m0",), ("field", t[2][2], t[1]))), one
+        if isinstance(t, tuple) and t and t[0] == "un" and t[1] == "Neg":
+            n, d = self.ev(t[2])
+            return -n, d
+        if isinstance(t, tuple) and t and t[0] == "call":
+            nm = str(t[1])
+            args = [x for x in t[2] if not (isinstance(x, tuple) and x and x[0] == "mem")]
+            op = {"Add>::add": "Add", "Sub>::sub": "Sub", "Mul>::mul": "Mul", "Div>::div": "Div"}.get(nm.rsplit("::", 2)[-2] + "::" + nm.rsplit("::", 1)[-1] if nm.count("::") >= 2 else "", None)
+            short = nm.rsplit("::", 1)[-1]
+            if op is None and short in ("add", "sub", "mul", "div") and len(args) == 2:
+                op = short.capitalize()
+            if op is not None and len(args) == 2:
+                return _Rat.ev(self, ("fbin", op, args[0], args[1]))
+            if short == "neg" and len(args) == 1:
+                n, d = self.ev(args[0])
+                return -n, d
+            if short == "max" and len(args) == 2 and args[1] == ("fconst", 0.0, "f64"):
+                return self.ev(args[0])
+            if short == "abs" and len(args) == 1:
+                n, d = self.ev(args[0])
+                if d == one:
+                    v = ("abs", repr(sorted(n.t.items(), key=repr)))
+                    self.abs_atoms[v] = n
+                    return P.var(v), one
+            if short == "sqrt" and len(args) == 1:
+                n, d = self.ev(args[0])
+                if self.unit is not None and self.unit(n, d):
+                    return one, one
+                v = ("sqrt", repr(sorted(n.t.items(), key=repr)), repr(sorted(d.t.items(), key=repr)))
+                self.sqrt_atoms[v] = (n, d)
+                return P.var(v), one
+        return _Rat.ev(self, t)
+
+
+def _subst_sq(poly, var, repl, Poly):
+    """replace every var^2 in poly by the polynomial repl (var itself stays where its exponent is odd)"""
+    out = Poly()
+    for mono, coef in poly.t.items():
+        e = dict(mono).get(var, 0)
+        rest = tuple((v, k) for v, k in mono if v != var)
+        term = Poly({rest: coef})
+        for _ in range(e // 2):
+            term = term * repl
+        if e % 2:
+            term = term * Poly.var(var)
+        out = out + term
+    return out
+
+
+def _rule_g5(col, crate, idx):
+    """intersect_cl: with the line normalised (a^2 + b^2 = 1, G2) and d = |s|, s = a*cx + b*cy + c: every reported
+    point P satisfies a*Px + b*Py + c = 0 identically (on each path, with |s| resolved by the path's own sign test of
+    s), the touch point is at distance d from the centre and the two secant points at distance r
+    (sqrt(r^2 - d^2)^2 = r^2 - d^2).  Decides the algebra of the construction, not the floating-point error."""
+    from ..absint import strip_mem as _sm
+    from ..polyid import Poly
+
+    LA, LB, LC, CC, CR, PX, PY = idx
+    fk = util.fkey
+    col.rule("G5", "circle-line: touch and secant points satisfy the line equation identically and lie at distance d resp. r from the centre (normalised line, |s| resolved by the path's sign test)", floor=4)
+    b = util.need_body(crate, "util::intersect_cl")
+    inl = [m for m in crate.bodies if not m.is_closure and m.kind in ("Fn", "AssocFn") and m.key != b.key and not util.self_recursive(m) and not (crate.impl_of(m) or {}).get("derived") and not (m.name in ("new", "between") and "Line" in m.path)]
+    I = util.analyser(inl, features=("comb", "fncall", "deep"))(b)
+    c_, l_ = ("deref", ("param", 1, I.names.get(1))), ("deref", ("param", 2, I.names.get(2)))
+
+    def fv(base, *path):
+        pl = base
+        for k in path:
+            pl = ("field", pl, k)
+        return Poly.var(_sm(("load", ("m0",), pl)))
+
+    a, bq, c = fv(l_, LA), fv(l_, LB), fv(l_, LC)
+    cx, cy, r = fv(c_, CC, PX), fv(c_, CC, PY), fv(c_, CR)
+    s_poly = a * cx + bq * cy + c
+    bvar = next(iter(bq.t))[0][0]
+    one = Poly.const(1)
+
+    def norm(p):
+        return _subst_sq(p, bvar, one - a * a, Poly)   # b^2 = 1 - a^2
+
+    n_touch = n_sec = 0
+    for st in I.final_states:
+        ret = util.ret_term(st)
+        if not (ret[0] == "agg" and isinstance(ret[1], tuple) and len(ret[1]) > 3 and ret[1][3] in ("Touch", "Intersect")):
+            continue
+        G = _Geo()
+        G.unit = lambda n, d: norm(n - d).is_zero()
+        # a path on which the normal's length tested as zero cannot happen for a normalised line
+        dead = False
+        for f in st.facts:
+            t = f[1]
+            if f[0] == "eq" and isinstance(t, tuple) and t and t[0] == "fcmp" and t[3] == ("fconst", 0.0, "f64") and isinstance(t[2], tuple) and t[2] and t[2][0] == "call" and str(t[2][1]).endswith("sqrt"):
+                n_, d_ = G.ev(_sm(t[2]))
+                is_one = (n_ - d_).is_zero()
+                if is_one and ((t[1] == "Ne" and f[2] == 0) or (t[1] == "Eq" and f[2] == 1)):
+                    dead = True
+        if dead:
+            continue
+        variant = ret[1][3]
+        pts = []
+        for pt in ret[2]:
+            if pt[0] == "agg" and len(pt[2]) == 2:
+                pts.append((G.ev(_sm(pt[2][PX])), G.ev(_sm(pt[2][PY]))))
+        key = "%s|%s" % (fk(b), variant.lower())
+        if len(pts) != (1 if variant == "Touch" else 2) or G.opaque:
+            col.violation("G5", key, b.loc(), "cannot evaluate the %s point(s) as expressions of the inputs (%s)" % (variant, tstr(G.opaque[0])[:80] if G.opaque else "shape"))
+            continue
+        # |s| on this path: the sign test of s decides it
+        sign = None
+        for f in st.facts:
+            t = f[1]
+            if not (f[0] == "eq" and isinstance(t, tuple) and t and t[0] == "fcmp" and t[1] in ("Gt", "Lt", "Ge", "Le")):
+                continue
+            (n1, d1), (n2, d2) = G.ev(_sm(t[2])), G.ev(_sm(t[3]))
+            if not (d1 == one and d2 == one):
+                continue
+            p_ = n1 - n2
+            flip = None
+            if (p_ - s_poly).is_zero():
+                flip = 1
+            elif (p_ + s_poly).is_zero():
+                flip = -1
+            if flip is None:
+                continue
+            truth = bool(f[2])
+            pos = {"Gt": truth, "Ge": truth, "Lt": not truth, "Le": not truth}[t[1]]   # p_ is (weakly) positive
+            sign = flip if pos else -flip
+        ok, why = True, ""
+        for (xn, xd), (yn, yd) in pts:
+            polys = {"line": a * xn * yd + bq * yn * xd + c * xd * yd}
+            dx, dy = xn - cx * xd, yn - cy * yd
+            dist2 = dx * dx * yd * yd + dy * dy * xd * xd
+            den2 = xd * xd * yd * yd
+            for v, arg in G.abs_atoms.items():
+                if not (arg - s_poly).is_zero() and not (arg + s_poly).is_zero():
+                    ok, why = False, "an absolute value other than the line's value at the centre enters the point"
+            D2 = s_poly * s_poly
+            polys["distance"] = dist2 - (D2 if variant == "Touch" else r * r) * den2
+            for nm_, pl in polys.items():
+                q = pl
+                for v, (rn, rd) in G.sqrt_atoms.items():
+                    if rd == one:
+                        q = _subst_sq(q, v, rn, Poly)
+                for v in G.abs_atoms:
+                    q = _subst_sq(q, v, s_poly * s_poly, Poly)
+                    if any(dict(m).get(v) for m in q.t):
+                        if sign is None:
+                            ok, why = False, "the normal is not oriented by the sign of a*cx + b*cy + c on this path (no such test among the path's facts)"
+                            break
+                        q = q.subst(v, s_poly * Poly.const(sign))
+                q = norm(q)
+                if ok and not q.is_zero():
+                    ok, why = False, ("the point does not satisfy the line's equation" if nm_ == "line" else "the point is not at distance %s from the centre" % ("d" if variant == "Touch" else "r")) + " (residual %s)" % repr(q)[:140]
+                if not ok:
+                    break
+            if not ok:
+                break
+        if ok and variant == "Intersect":
+            (x1n, x1d), (y1n, y1d) = pts[0]
+            (x2n, x2d), (y2n, y2d) = pts[1]
+            if (x1n * x2d - x2n * x1d).is_zero() and (y1n * y2d - y2n * y1d).is_zero():
+                ok, why = False, "the two reported points are the same expression: a secant has two different intersection points (centre + foot +/- half chord)"
+        n_touch += variant == "Touch"
+        n_sec += variant == "Intersect"
+        key = "%s|%s|%s" % (fk(b), variant.lower(), "s>0" if sign == 1 else "s<=0" if sign == -1 else "s?")
+        if ok:
+            col.ok("G5", b.loc(), key, "a*Px + b*Py + c == 0 and |P - centre| == %s identically" % ("d" if variant == "Touch" else "r"))
+        else:
+            col.violation("G5", "%s|%s" % (fk(b), variant.lower()), b.loc(), "intersect_cl (%s): %s" % (variant, why))
+    if not n_touch or not n_sec:
+        col.violation("G5", "%s|paths" % fk(b), b.loc(), "expected Touch and Intersect paths in intersect_cl")
+
+
 def is_eps(c, sign=None):
     return abs(abs(c) - EPSV) < 1e-18 and (sign is None or (c > 0) == (sign > 0))
 
@@ -462,6 +651,9 @@ def check(col, prog, tier, profile, fixture=None):
     if sorted(variants) != ["Intersect", "None", "Touch"]:
         col.violation("G3", "%s|variants" % fk(b), b.loc(), "intersect_cl must be able to return None, Touch and Intersect (returns %s)" % sorted(variants))
 
+    # ---------------- intersect_cl, G5: the reported points solve the line's equation and sit at the right distance
+    _rule_g5(col, crate, (LA, LB, LC, CC, CR, PX, PY))
+
     # ---------------- intersect_cc
     b = util.need_body(crate, "util::intersect_cc")
     I = _g1_analyser(crate)(b)
@@ -491,6 +683,7 @@ def check(col, prog, tier, profile, fixture=None):
         R = ("load", None, ("field", ("deref", ("param", big)), CR))
         lad = {}
         same = None
+        radii_close = None
         for (lin, op, truth) in facts:
             atoms = {(_strip(a)): c for a, c in lin[0].items()}
             dd = [a for a in atoms if a[0] == "call" and str(a[1]).endswith("util::dist")]
@@ -508,6 +701,13 @@ def check(col, prog, tier, profile, fixture=None):
                 s = 1 if atoms[dd[0]] > 0 else -1
                 o = op if s > 0 else {"Gt": "Lt", "Lt": "Gt"}.get(op, op)
                 same = (o == "Lt") == truth
+            if not dd and len(rb) == 1 and len(rsm) == 1 and len(atoms) == 2 and is_eps(lin[1]):
+                # R - r against EPS: the radii agree within the tolerance exactly when R - r - EPS < 0 (R >= r here)
+                s = 1 if atoms[rb[0]] > 0 else -1
+                cr_, k = atoms[rsm[0]] * s, lin[1] * s
+                o = op if s > 0 else {"Gt": "Lt", "Lt": "Gt", "Ge": "Le", "Le": "Ge"}.get(op, op)
+                if abs(atoms[rb[0]]) == 1 and cr_ == -1:
+                    radii_close = (o in ("Lt", "Le")) == truth and k < 0
         order = ["R-r-e", "R-r+e", "R+r-e", "R+r+e"]
         calls_cl = any(e.kind == "call" and (e.fn.get("resolved") or e.fn).get("def") == icl.key for e in st.event_list())
         # expected variant from the ladder
@@ -525,10 +725,10 @@ def check(col, prog, tier, profile, fixture=None):
         mono = all(not (lad.get(x) is True and lad.get(y) is False) for i, x in enumerate(order) for y in order[i + 1 :])
         if var == "Same" and not lad:
             key = "%s|same" % fk(b)
-            if same:
-                col.ok("G3", b.loc(), key, "d < EPS and equal radii -> Same")
+            if same and radii_close:
+                col.ok("G3", b.loc(), key, "d < EPS and R - r < EPS -> Same")
             else:
-                col.violation("G3", key, b.loc(), "Same must be returned only for coincident centres (d < EPS)")
+                col.violation("G3", key, b.loc(), "Same must be returned exactly for coincident centres (d < EPS) and radii equal within the tolerance (R - r < EPS, radii ordered first)")
             continue
         got = "via-circle-line" if calls_cl else var
         key = "%s|ladder|%s|%s" % (fk(b), got, "swapped" if swapped else "plain")
